@@ -1,0 +1,54 @@
+//go:build verif
+
+// Contracts for package rwc, checked by /verif (bfvc). Comment-only.
+// Byte-stream model (rdpos, rddata, rdstr), le32/le32enc: /verif/specs/io.spec.
+package rwc
+
+// ---- C08: packets over a byte stream keep their content and boundaries ----
+
+// getArenaBuf returns a buffer of exactly the requested size.
+//@ func (*PacketConn).getArenaBuf
+//@   noframe
+//@   nosweep nil-deref type-assert
+//@   requires size >= 0
+//@   ensures size != 0 ==> len(ret) == size && ret != nil
+
+// WriteTo hands the stream one Write holding the 4-byte little-endian length and then the packet.
+//@ func (*PacketConn).WriteTo
+//@   noframe
+//@   nosweep nil-deref
+//@   assert at call invoke.Write: len(pkt) <= 2147483647 && len(arg0) == len(pkt) + 4
+//@   assert at call invoke.Write: content(arg0)[0..4] == le32enc(len(pkt))
+// (the arena buffer is PacketConn's own memory: it does not overlap the caller's packet - see plan)
+//@   assert at call invoke.Write: sliceobj(arg0) != sliceobj(pkt) ==> content(arg0)[4..len(arg0)] == content(pkt)
+//@   ensures len(pkt) > 2147483647 ==> err != nil
+//@   ensures err == nil && len(pkt) > 0 ==> n == len(pkt)
+
+// rxPump, per iteration: reads 4 bytes, takes them as a little-endian length n, stops with an error
+// when n is 0 or exceeds maxPacketSize, reads exactly the next n bytes and offers them as one packet;
+// the iteration consumes exactly 4+n bytes of the stream.
+//@ func (*PacketConn).rxPump
+//@   noframe
+//@   nosweep nil-deref
+// a length prefix is refused only when it is 0 or above the limit
+//@   assert at call errors.New: pktLen == 0
+//@   assert at call Errorf: pktLen > p.maxPacketSize
+//@   assert at call ReadFull: true
+//@   assert at send: 1 <= len(sent) && len(sent) <= p.maxPacketSize && len(sent) == le32(rdstr(p.rwc, atcall(ReadFull, rdpos[arg0]), atcall(ReadFull, rdpos[arg0]) + 4))
+//@   assert at send: content(sent) == rdstr(p.rwc, atcall(ReadFull, rdpos[arg0]) + 4, atcall(ReadFull, rdpos[arg0]) + 4 + len(sent))
+//@   assert at send: rdpos[p.rwc] == atcall(ReadFull, rdpos[arg0]) + 4 + len(sent)
+
+
+// ReadFrom hands over one queued packet: all of it when it fits (n = its length), else the part
+// that fits together with io.ErrShortBuffer (n = len(pk)); a closed queue is reported as an error.
+//@ func (*PacketConn).ReadFrom
+//@   noframe
+//@   nosweep nil-deref
+// (pkt's buffer goes back to the arena before the return: pl is its length, and the contents are
+// those at the Put call)
+//@   assert at call Put: pl == len(pkt)
+//@   assert at exit: ok && len(pk) < pl ==> err == io.ErrShortBuffer && n == len(pk)
+//@   assert at exit: ok && len(pk) >= pl ==> err == nil && n == pl
+//@   assert at call Put: sliceobj(pk) != sliceobj(pkt) && len(pk) >= pl ==> content(pk)[0..pl] == content(pkt)
+//@   assert at call Put: sliceobj(pk) != sliceobj(pkt) && len(pk) < pl ==> content(pk) == content(pkt)[0..len(pk)]
+//@   ensures 0 <= n && n <= len(pk)
